@@ -2,7 +2,7 @@
 into the evidence file. The checks themselves live in lean/Insim/Props/<ID>.lean (theorems),
 harness/src/<id>.rs (correspondence streams + implementation-side oracle) and translate/*.py."""
 
-TRANSLATORS = ["vehicle"]
+TRANSLATORS = ["vehicle", "durations"]
 
 TRUSTED_COMMON = [
     "Lean 4.33.0 kernel; axioms allowed: propext, Classical.choice, Quot.sound (audited with #print axioms on every run); no sorry/admit/native_decide/bv_decide/own axioms (grep on every run)",
@@ -24,6 +24,21 @@ PROPS = {
         "rule": "one line per 4-byte word: class-representative bytes^3 x 7 last bytes, every spec name and all its alphanumeric one-letter neighbours, short inputs, random words; thorough adds all 2^32 words through the real reader/writer (oracle only). distinct = distinct words; every word is non-trivial (each exercises the classifier)",
         "assumptions": [
             "specNames (Lean) / SPEC_NAMES (Rust oracle) transcribe the 20 built-in cars of LFS 0.7 from memory of InSim.txt; no copy of the specification exists in the sandbox",
+        ],
+    },
+    "C15": {
+        "level_text": "Lean theorems, unbounded: every wire value of a scaled time field re-encodes to itself for any width/scale (instantiated on every duration field regenerated from the packet declarations: read/write width and scale agree, scale is 1 or 10 ms); encoding rounds down exactly and refuses out-of-range durations; race-length bytes 0..238 round-trip, 239..255 fall back to practice, in-range race lengths decode back to their rounded-down value, out-of-range ones become practice; Small's time sub-types round-trip every u32 and refuse overflow; Fuel bytes round-trip. Hand model tied by correspondence (all 65536 values of the 16-bit fields, all 256 race-length bytes, lap/hour counts 0..2000, boundary-biased 32-bit values).",
+        "level_note": "Trusted: Lean kernel; translate/durations.py (reads the parse_with/write_with attributes); the harness. Modelled not verified: std::time::Duration arithmetic (as_millis/from_millis), binrw integer primitives, TryFrom<u128> for uN.",
+        "technique": "Lean 4 proof (arithmetic lemmas with omega, decide on regenerated field table) + translator + differential correspondence",
+        "translators": ["durations"],
+        "trusted": [
+            "translate/durations.py: every field carrying binrw_parse_duration/binrw_write_duration, its integer type and SCALE on both sides",
+            "hand-modelled, tied by the correspondence run only: duration.rs helpers, RaceLaps From<u8>/From<RaceLaps>, SmallType read/write of the time sub-types, Duration::as_millis / from_millis",
+        ],
+        "rule": "one line per conversion: dur.rd/dur.wr for the four (width, scale) combinations in use, laps.rd for all 256 bytes, laps.wr for lap/hour counts 0..2000 and extremes, small.rd/small.wr for discriminants 1,2,5,6,7; distinct = distinct op text; each line exercises a conversion so all are non-trivial",
+        "assumptions": [
+            "race-length bytes 239..255 are outside the specification's table; mapping them to practice is the documented fallback (DESIGN.md section 8, reading of the statements)",
+            "lap counts 100..1000 not divisible by 10 round down to the field's resolution",
         ],
     },
 }
